@@ -73,13 +73,24 @@ define("nointL(D, L, j)", "D[1, MAX] < L[j] or D[1, MIN] > L[j]")
 LO3, HI3 = "pre(domains)[0, MIN]", "pre(domains)[0, MAX]"
 NOL = lambda j: f"nointL({OD}, parameters, {j})"
 VSAME = ("P1.v", f"domains[1, MIN] == {OD}[1, MIN] and domains[1, MAX] == {OD}[1, MAX]")
-propagator(REG, "nucs/propagators/element_iv_propagator.py::compute_domains_element_iv",
+# P5 (exact hull) for element_iv: the witness for a bound of i is (that index, its constant); for a bound of v it is some index of the output range
+# whose constant is that bound
+NI = "result != PROP_INCONSISTENCY"
+GOODW = f"inbox(W, domains, n) and inbox(W, {OD}, n) and @R(W)"
+P5_IV = [
+    ("P5.i_min", f"implies({NI}, let(W, arr(j, 2, ite(j == 0, domains[0, MIN], parameters[domains[0, MIN]])), {GOODW}))"),
+    ("P5.i_max", f"implies({NI}, let(W, arr(j, 2, ite(j == 0, domains[0, MAX], parameters[domains[0, MAX]])), {GOODW}))"),
+    ("P5.v_min", f"implies({NI}, exists(jj, 0, m, let(W, arr(j, 2, ite(j == 0, jj, parameters[jj])), {GOODW} and W[1] == domains[1, MIN])))"),
+    ("P5.v_max", f"implies({NI}, exists(jj, 0, m, let(W, arr(j, 2, ite(j == 0, jj, parameters[jj])), {GOODW} and W[1] == domains[1, MAX])))"),
+]
+propagator(REG, "nucs/propagators/element_iv_propagator.py::compute_domains_element_iv", p5=P5_IV,
     rel="exists(k, 0, m, @T[0] == k and parameters[k] == @T[1])", n_min=2,
     requires=["n == 2", "m >= 1", I32, "forall(k, 0, m, -2147483648 <= parameters[k] and parameters[k] <= 2147483647)"],
-    ghost_init={"jmin": 0, "jmax": 0},
+    ghost_init={"jmin": 0, "jmax": 0, "rank": "@rank0"}, ghost={"rank0": "int[m]"}, ghost_modifies=["rank0"],
     loops={
-        1: dict(index="k", fingerprint="for range(i[MIN], i[MAX] + 1)", also_modifies=["jmin", "jmax"],
-                ghost_updates={"jmin": "ite(v_min != it0(v_min), idx, jmin)", "jmax": "ite(v_max != it0(v_max), idx, jmax)"},
+        1: dict(index="k", fingerprint="for range(i[MIN], i[MAX] + 1)", also_modifies=["jmin", "jmax", "rank"],
+                ghost_updates={"jmin": "ite(v_min != it0(v_min), idx, jmin)", "jmax": "ite(v_max != it0(v_max), idx, jmax)",
+                               "rank": "arr(j, m, ite(j == idx and len(indices) != it0(len(indices)), it0(len(indices)), it0(rank)[j]))"},
                 invariant=[
             VSAME,
             ("P1.imax", f"domains[0, MAX] == {HI3} and 0 <= {LO3} and {HI3} <= m - 1 and {OD}[0, MIN] <= {LO3} and {HI3} <= {OD}[0, MAX]"),
@@ -90,11 +101,15 @@ propagator(REG, "nucs/propagators/element_iv_propagator.py::compute_domains_elem
             ("P2.vrange", f"forall(j, {LO3}, {LO3} + k, implies(not ({NOL('j')}), v_min <= parameters[j] and v_max >= parameters[j]))"),
             ("P1.vmin_attained", f"(v_min == {BIG} and forall(j, {LO3}, {LO3} + k, {NOL('j')})) or ({LO3} <= jmin and jmin < {LO3} + k and not ({NOL('jmin')}) and v_min == parameters[jmin])"),
             ("P1.vmax_attained", f"(v_max == -{BIG} and forall(j, {LO3}, {LO3} + k, {NOL('j')})) or ({LO3} <= jmax and jmax < {LO3} + k and not ({NOL('jmax')}) and v_max == parameters[jmax])"),
+            ("P5.sorted", "forall(a, 0, len(indices), forall(b, a + 1, len(indices), indices[a] > indices[b]))"),
+            # rank[j] = length of the list when the unsupported index j was inserted at its front: its distance from the END never changes
+            ("P5.complete", f"forall(j, {LO3}, {LO3} + k, implies({NOL('j')}, 0 <= rank[j] and rank[j] < len(indices) and indices[len(indices) - 1 - rank[j]] == j))"),
         ]),
         2: dict(index="q", fingerprint="for indices", invariant=[
             VSAME,
             ("P1.imin", "domains[0, MIN] == pre(domains)[0, MIN]"),
             ("P2.imax", f"domains[0, MAX] == {HI3} - q"),
+            ("P5.prefix", f"forall(r, 0, q, indices[r] == {HI3} - r)"),
             ("P2.dropped", f"forall(j, domains[0, MAX] + 1, {HI3} + 1, {NOL('j')})"),
             ("P1.above", f"implies(domains[0, MIN] <= {HI3} and not ({NOL('domains[0, MIN]')}), domains[0, MAX] >= domains[0, MIN])"),
         ]),
